@@ -506,7 +506,11 @@ pub fn drive(
                     let before = ch.gauges();
                     let mut cx = Context::from_waker(&waker.waker);
                     let r = catch_unwind(AssertUnwindSafe(|| ch.poll_next(&mut cx)));
-                    let log = ctl.take_log();
+                    let mut log = ctl.take_log();
+                    if matches!(&r, Err(p) if p.downcast_ref::<BudgetExceeded>().is_some()) {
+                        // the poll was aborted after 10 000 transport calls: keep what shows the spin
+                        log.truncate(64);
+                    }
                     // tags from the call log
                     let mut saw_cancel = false;
                     let mut saw_ready_pending = false;
